@@ -98,11 +98,11 @@ theorem C04_edit_frame (a m b : List BTok) (k : Nat) :
 
 /-! ### frame: who can change the token list, and what gates it -/
 
-def classOf (f fn : String) : Option (String × List String × Nat) :=
+def mutClassOf (f fn : String) : Option (String × List String × Nat) :=
   (Gen.mutClass.find? (fun c => c.1 == f && c.2.1 == fn)).map (fun c => (c.2.2.1, c.2.2.2.1, c.2.2.2.2))
 
 def siteClassified (s : String × String × Nat) : Bool :=
-  match classOf s.1 s.2.1 with
+  match mutClassOf s.1 s.2.1 with
   | some (_, _, m) => decide (s.2.2 ≤ m)
   | none => false
 
